@@ -251,6 +251,11 @@ pub fn item(it: &Value, lay: &mut Layout, res: Option<&Value>) -> String {
             format!("print!({});", parts.join(&format!(",{}", lay.sp())))
         }
         "M" => format!("print!(\"#\", {}usize, \"\\n\");", it["i"].as_u64().unwrap_or(0)),
+        "T" => {
+            // string literals only (printable ASCII without quotes and backslashes), the line break in a literal of its own
+            let parts: Vec<String> = it["parts"].as_array().unwrap().iter().map(|p| format!("\"{}\"", p.as_str().unwrap_or(""))).collect();
+            format!("print!({},{}\"\\n\");", parts.join(&format!(",{}", lay.sp())), lay.sp())
+        }
         "CALL" => {
             let args: Vec<String> = it["args"].as_array().unwrap().iter().map(|x| expr(x, lay)).collect();
             let call = format!("{}({})", it["f"].as_str().unwrap(), args.join(", "));
